@@ -23,6 +23,8 @@ CHECKS = {
          "TLC checking of the rewrite system model + step-by-step trace validation of the real rewriter"),
  "C11": ("E-reduce", "ReduceCases.tla: on every recorded derivation TLC checks no structural form is revisited, the step count is within 2n^2+10, the final form is rule-free according to the spec's own NoRuleApplies (flags ignored), memo flags are truthful, and inputs of <= 20 nodes finish inside the library's budget without the warning",
          "TLC checking of termination/no-revisit/rule-freeness on recorded derivations + model conformance"),
+ "C05": ("E-sym", "SymCases.tla: the expressions handed out by Partial/Derivative.as_expression (forward symbolic route) and by early Differential components (reverse route with symbolic multipliers) are recorded and judged by TLC at every grid point against the dual-number reference (defined on the original's domain, equal value, no new variable, well-formed) and, differentiated once more through the public API, against the second-order reference; SmDiffSym+SmReduce predict the exact expression and are themselves checked against the reference",
+         "TLC evaluation of recorded symbolic derivatives against the reference semantics + operational model of both symbolic routes"),
 }
 m = {"version": 1,
      "setup_cmd": "cd /verif && ./bin/setup.sh",
